@@ -7,8 +7,8 @@ export CARGO_NET_OFFLINE=true
 mkdir -p build evidence replay
 python3 tools/rs2v.py "${VERIF_REPO:-/repo}" || echo "setup: translator reported a failure (checks will report it)"
 cd coq
-coq_makefile -f _CoqProject -o Makefile
+python3 ../tools/mkcoqproject.py && coq_makefile -f _CoqProject -o Makefile
 timeout 3000 make -j16 -k || echo "setup: some Coq files failed to build (checks will report it)"
 cd ../harness
 [ -f Cargo.lock ] || cp "${VERIF_REPO:-/repo}/Cargo.lock" Cargo.lock
-cargo build --offline
+cargo build --offline --bins
